@@ -97,5 +97,20 @@ func upgradeScenarios(tier string) []*vx.Scenario {
 			func(srv *sio.Server, mgr *sio.Manager, sock sio.ClientSocket, link *vrig.Inproc, l *pairLog) {},
 			down, down, true, b, startUpgrade(cut.set)))
 	}
+	// a burst of server -> client events is queued on the polling transport when the UPGRADE arrives, and the new
+	// pipe breaks at the first frame the server carries over to it: the write fails inside upgradeTo, and the
+	// transport reports its close from inside Send, on upgradeTo's own goroutine
+	for k := 0; k <= 7; k++ {
+		k := k
+		out = append(out, r3Scenario(fmt.Sprintf("during-upgrade/pipe-cut-at-the-first-carried-over-frame/server-burst-at-%d*L/2", k),
+			func(srv *sio.Server, mgr *sio.Manager, sock sio.ClientSocket, link *vrig.Inproc, l *pairLog) {
+				vsched.GoQuiet("server-burst", func() {
+					vsched.Sleep(time.Duration(k) * upL / 2)
+					for i := 0; i < 3; i++ {
+						l.serverSock.Emit("burst", i)
+					}
+				})
+			}, down, down, true, b, startUpgrade(func(d *vrig.Duplex) { d.CutBeforeS2C = 1 })))
+	}
 	return out
 }
